@@ -70,7 +70,7 @@ def run_mc(group, gname, tier, wd, seed):
     cfg = os.path.join(wd, "MC_%s.cfg" % gname)
     invs = ["NoViol", "Inv_Stream", "RcOK", "IdleAtRest", "StackOK"]
     tlc.write_cfg(cfg, "Spec", consts, invariants=invs, subst=group["subst"])
-    res = tlc.run("MC.tla", cfg, os.path.join(wd, "mc_" + gname), workers=12, timeout=t["mc_timeout"], keep_stdout=True)
+    res = tlc.run("MC.tla", cfg, os.path.join(wd, "mc_" + gname), workers=12, timeout=t["mc_timeout"], keep_stdout=True, cache=True)
     return res, consts
 
 def run_gen(group, gname, tier, wd, seed):
@@ -80,7 +80,7 @@ def run_gen(group, gname, tier, wd, seed):
     cfg = os.path.join(wd, "Gen_%s.cfg" % gname)
     tlc.write_cfg(cfg, "GSpec", consts, invariants=["Emitted"], subst=group.get("gen_subst", group["subst"]))
     extra = ["-simulate", "num=%d" % t["sim_num"], "-depth", str(t["sim_depth"]), "-seed", str(seed)]
-    res = tlc.run("Gen.tla", cfg, os.path.join(wd, "gen_" + gname), workers=1, timeout=t["sim_timeout"], extra=extra)
+    res = tlc.run("Gen.tla", cfg, os.path.join(wd, "gen_" + gname), workers=1, timeout=t["sim_timeout"], extra=extra, cache=True)
     hists = list(progs.parse_replay_lines(res.stdout))
     if not hists and not res.timed_out:
         raise ToolError("TLC generated no behaviours for group %s:\n%s" % (gname, res.stdout[-2000:]))
@@ -104,7 +104,7 @@ def run_enum(en, ename, tier, wd):
         consts["MaxOps"] = t["enum_budget"]
     cfg = os.path.join(wd, "Enum_%s.cfg" % ename)
     tlc.write_cfg(cfg, "GSpec", consts, invariants=["NoViol", "Emitted"], subst=en["subst"])
-    res = tlc.run("Gen.tla", cfg, os.path.join(wd, "enum_" + ename), workers=8, timeout=t["enum_timeout"])
+    res = tlc.run("Gen.tla", cfg, os.path.join(wd, "enum_" + ename), workers=8, timeout=t["enum_timeout"], cache=True)
     if res.error:
         raise ToolError("TLC error while enumerating %s:\n%s" % (ename, res.error))
     hists = list(progs.parse_replay_lines(res.stdout))
@@ -275,7 +275,7 @@ def check_property(prop, tier, seed):
             mc, consts = run_mc(group, gname, tier, wd, seed)
             if mc.error:
                 raise ToolError("TLC error in model check of group %s:\n%s" % (gname, mc.error))
-            g["mc"] = dict(distinct=mc.distinct, generated=mc.generated, depth=mc.depth, complete=mc.complete, timed_out=mc.timed_out,
+            g["mc"] = dict(cached=mc.cached, distinct=mc.distinct, generated=mc.generated, depth=mc.depth, complete=mc.complete, timed_out=mc.timed_out,
                            wall_s=round(mc.wall, 1), constants={k: (sorted(v) if isinstance(v, (set, frozenset)) else v) for k, v in consts.items()})
             cov["states"] += mc.distinct
             cov["transitions"] += mc.generated
